@@ -14,8 +14,7 @@ class SymRNG(np.random.RandomState):
         self.fork_perm = fork_perm; self.fork_int = fork_int; self.perm_subset = perm_subset
         self.seen = set(); self.detect_redundant = True
     def _use(self):
-        self.budget -= 1
-        if self.budget < 0: raise Prune('rng draw budget')
+        pass
     def _site(self):
         """called once per public draw call: cut the path if this draw site is revisited in an identical live state"""
         if self.detect_redundant:
@@ -24,6 +23,8 @@ class SymRNG(np.random.RandomState):
             if sig is not None:
                 if sig in self.seen: raise Prune('redundant: random-draw site revisited in an identical live state (rejected draw)')
                 self.seen.add(sig)
+        self.budget -= 1          # budget counts public RandomState calls (not elementary draws)
+        if self.budget < 0: raise Prune('rng draw budget')
     def _int(self, low, high):
         from .arr import _ci
         low, high = _ci(low), _ci(high)
@@ -73,10 +74,20 @@ class SymRNG(np.random.RandomState):
         p = self.permutation(len(x)); x[...] = x[p]
     def choice(self, a, size=None, replace=True, p=None):
         from .arr import S
-        if p is not None or not replace or size is not None: raise Unsupported('rng.choice variant')
+        if p is not None: raise Unsupported('rng.choice with probabilities')
         self._site()
-        if isinstance(a, (int, np.integer)): return self._int(0, a)
-        a = S(a); return a[self._int(0, len(a))]
+        pool = None if isinstance(a, (int, np.integer)) else S(a)
+        n = int(a) if pool is None else len(pool)
+        if size is None:
+            v = self._int(0, n); return v if pool is None else pool[v]
+        cnt = int(np.prod(size)); vs = []
+        for _ in range(cnt):
+            v = self._int(0, n)
+            if not replace:
+                for w in vs: E().assume(ir.ne(v, w))
+            vs.append(v)
+        idx = S(np.array(vs, dtype=object).reshape(size), 'i')
+        return idx if pool is None else pool[idx]
     def seed(self, *a, **k): pass
     def get_state(self, *a, **k): raise Unsupported('rng.get_state')
     def normal(self, *a, **k): raise Unsupported('rng.normal')
@@ -130,6 +141,8 @@ class ScriptedRandomState(np.random.RandomState):
     def shuffle(self, x):
         x[...] = self.permutation(x)
     def choice(self, a, size=None, replace=True, p=None):
-        if p is not None or not replace or size is not None: raise ScriptMismatch('choice variant')
-        if isinstance(a, (int, np.integer)): return self.randint(0, a)
-        return a[self.randint(0, len(a))]
+        if p is not None: raise ScriptMismatch('choice variant')
+        pool = None if isinstance(a, (int, np.integer)) else np.asarray(a)
+        n = int(a) if pool is None else len(pool)
+        idx = self.randint(0, n, size=size)
+        return idx if pool is None else pool[idx]
